@@ -121,6 +121,9 @@ func parserRequestHeader(c *Client, req *Request) error {
 	// Set HTTP method.
 	req.RawRequest.Header.SetMethod(req.Method())
 
+	// The default User-Agent comes first: a User-Agent configured as a header replaces it.
+	req.RawRequest.Header.SetUserAgent(defaultUserAgent)
+
 	// Merge headers from the client.
 	c.header.VisitAll(func(key, value []byte) {
 		req.RawRequest.Header.AddBytesKV(key, value)
@@ -153,8 +156,7 @@ func parserRequestHeader(c *Client, req *Request) error {
 		// noBody or rawBody do not require special handling here.
 	}
 
-	// Set User-Agent header.
-	req.RawRequest.Header.SetUserAgent(defaultUserAgent)
+	// Set User-Agent header (the dedicated setters win over a header of that name).
 	if c.userAgent != "" {
 		req.RawRequest.Header.SetUserAgent(c.userAgent)
 	}
@@ -162,8 +164,10 @@ func parserRequestHeader(c *Client, req *Request) error {
 		req.RawRequest.Header.SetUserAgent(req.userAgent)
 	}
 
-	// Set Referer header.
-	req.RawRequest.Header.SetReferer(c.referer)
+	// Set Referer header (only when a level configured one: a Referer set as a header stays).
+	if c.referer != "" {
+		req.RawRequest.Header.SetReferer(c.referer)
+	}
 	if req.referer != "" {
 		req.RawRequest.Header.SetReferer(req.referer)
 	}
